@@ -1,6 +1,8 @@
 package rules
 
 import (
+	"go/token"
+	"go/types"
 	"strings"
 
 	"fv/internal/bounds"
@@ -251,6 +253,37 @@ func decoderPerLoop(ctx *core.Ctx, r *RT, rule string) {
 				perFrame := inCycle(in) || (g != fn && r.onCycle(in))
 				ctx.Check(!perFrame, rule, ssax.Name(fn)+sprintf(" › frame decoder #%d is built once per read loop", n), r.IPos(in), "NewTFramedTransport outside the frame-consuming cycle",
 					"the buffering frame decoder is rebuilt for every frame ("+ssax.Name(g)+"): bytes it read ahead — the next response when two arrive in one read — are discarded with it, so that response is never delivered and its caller times out, or the stream loses frame alignment")
+			}
+		}
+	}
+	// … and not less often: a decoder kept in a field survives the loop
+	for fn := range spawned(r) {
+		if !cycleReaches(fn, isExec) {
+			continue
+		}
+		for _, g := range localCone(fn, 2) {
+			seenField := map[string]bool{}
+			for _, c := range ssax.Calls(g) {
+				for _, a := range c.Args() {
+					if _, isPtr := a.Type().(*types.Pointer); !isPtr || !ssax.TypeNamed(a.Type(), "", "TFramedTransport") {
+						continue
+					}
+					ld, isLd := ssax.Strip(a).(*ssa.UnOp)
+					if !isLd || ld.Op != token.MUL {
+						continue
+					}
+					f := fieldNameOfAddr(ld.X)
+					if f == "" || seenField[f] {
+						continue
+					}
+					if c.Static != nil && c.Static.Signature.Recv() != nil && ssax.TypeNamed(c.Static.Signature.Recv().Type(), "", "TFramedTransport") && c.Static.Pkg == r.Pkg && g.Signature.Recv() != nil && ssax.TypeNamed(g.Signature.Recv().Type(), "", "TFramedTransport") {
+						continue // the decoder's own methods
+					}
+					seenField[f] = true
+					n++
+					ctx.Check(false, rule, ssax.Name(fn)+" › frame decoder lives as long as its read loop (field "+f+")", r.IPos(c.Instr), "",
+						"the reader loop decodes with a TFramedTransport kept in field "+f+": its bytes-remaining counter and read-ahead buffer survive the loop, so after a connection cut inside a frame and a re-open the first bytes of the new connection are taken for the rest of the old frame — valid responses are swallowed and the reader stalls")
+				}
 			}
 		}
 	}
